@@ -30,6 +30,8 @@ Inductive site_class :=
                              MinidumpUnloadedModuleList / ProcessorOptions apart from the reporter) *)
   | OwnSlotOnly           (* a statement of future i that reads shared immutable data and writes only slot i (`stack`) or its
                              own locals: c13_walks_in_place_*, c13_post_walk_readonly_independent *)
+  | WalkInternal          (* an async fn of the unwinder itself: awaiting it can only suspend where IT awaits, i.e. (by the same list)
+                             finally in a SymbolProvider method *)
   | InPlaceByIndex.       (* join_all over iter_mut(): future i owns slot i, results are not collected at all:
                              c13_walks_in_place_interleaving_independent, c13_join_by_index *)
 
@@ -89,4 +91,16 @@ Definition modelled_walk_future_steps : list ((string * string * string) * site_
   (("processor/processor.rs", "into_process_state/walk future", "ifoptions.recover_function_args{arg_recovery::fill_arguments(stack,stack_memory);}|uses:options"), OwnSlotOnly);
   (("processor/processor.rs", "into_process_state/walk future", "ifletSome(reporter)=options.stat_reporter{reporter.inc_processed_threads();}|uses:options"), ReporterOnly);
   (("processor/processor.rs", "into_process_state/walk future", "stack|uses:"), OwnSlotOnly)
+].
+
+(* every function whose future the unwinder awaits (all `.await`s of minidump-unwind/src/{lib,amd64,arm,arm64,arm64_old,mips,x86}.rs and
+   symbols/mod.rs).  fill_symbol / walk_frame / get_file_path are the SymbolProvider methods (Symbolizer: the first two begin with
+   get_symbols(module).await — C12's lookups; get_file_path is forwarded to the supplier and touches no Symbolizer state); everything else
+   is an async fn of the unwinder.  So a walk is suspended only inside symbol lookups and what it does next depends on the dump and on
+   the answers: the premise of C13/Adaptive.v (a walk = a decision tree over lookup answers) *)
+Definition modelled_walk_await_callees : list (string * site_class) := [
+  ("fill_source_line_info", WalkInternal); ("fill_symbol", SymbolizerC12); ("get_caller_by_cfi", WalkInternal);
+  ("get_caller_by_scan", WalkInternal); ("get_caller_by_scan32", WalkInternal); ("get_caller_by_scan64", WalkInternal);
+  ("get_caller_frame", WalkInternal); ("get_file_path", SymbolizerC12); ("instruction_seems_valid", WalkInternal);
+  ("instruction_seems_valid_by_symbols", WalkInternal); ("walk_frame", SymbolizerC12)
 ].
